@@ -464,6 +464,7 @@ spif_socket_send(spif_socket_t self, spif_str_t data)
 {
     size_t len;
     int num_written;
+    spif_charptr_t p;
     struct timeval tv = { 0, 0 };
 
     ASSERT_RVAL(!SPIF_SOCKET_ISNULL(self), FALSE);
@@ -472,15 +473,23 @@ spif_socket_send(spif_socket_t self, spif_str_t data)
     len = spif_str_get_len(data);
     REQUIRE_RVAL(len > 0, FALSE);
 
-    num_written = write(self->fd, SPIF_STR_STR(data), len);
-    for (; (num_written < 0) && ((errno == EAGAIN) || (errno == EINTR)); ) {
-        tv.tv_usec += 10000;
-        if (tv.tv_usec == 1000000) {
-            tv.tv_usec = 0;
-            tv.tv_sec++;
+    p = SPIF_CHARPTR(SPIF_STR_STR(data));
+    num_written = write(self->fd, p, len);
+    for (; ((num_written < 0) && ((errno == EAGAIN) || (errno == EINTR)))
+             || ((num_written > 0) && ((size_t) num_written < len)); ) {
+        if (num_written > 0) {
+            /* Short write.  Send the rest. */
+            p += num_written;
+            len -= num_written;
+        } else {
+            tv.tv_usec += 10000;
+            if (tv.tv_usec == 1000000) {
+                tv.tv_usec = 0;
+                tv.tv_sec++;
+            }
+            select(0, NULL, NULL, NULL, &tv);
         }
-        select(0, NULL, NULL, NULL, &tv);
-        num_written = write(self->fd, SPIF_STR_STR(data), len);
+        num_written = write(self->fd, p, len);
     }
     if (num_written < 0) {
         D_OBJ(("Unable to write to socket %d -- %s\n", self->fd, strerror(errno)));
@@ -492,11 +501,11 @@ spif_socket_send(spif_socket_t self, spif_str_t data)
                     spif_charptr_t s;
                     long left;
 
-                    for (left = len, s = SPIF_CHARPTR(SPIF_STR_STR(data)); left > 0; s += 1024, left -= 1024) {
+                    for (left = len, s = p; left > 0; s += 1024, left -= 1024) {
                         tmp_buf = spif_str_new_from_buff(s, 1024);
                         b = spif_socket_send(self, tmp_buf);
+                        spif_str_del(tmp_buf);
                         if (b == FALSE) {
-                            spif_str_del(tmp_buf);
                             return b;
                         }
                     }
@@ -504,11 +513,12 @@ spif_socket_send(spif_socket_t self, spif_str_t data)
                 break;
             case EIO:
             case EPIPE:
-                close(self->fd);
-                /* Drop */
             case EBADF:
             case EINVAL:
             default:
+                /* The socket is unusable.  Release the descriptor (harmless
+                   if it was never valid) rather than just forgetting it. */
+                close(self->fd);
                 self->fd = -1;
                 SPIF_SOCKET_FLAGS_CLEAR(self, SPIF_SOCKET_FLAGS_IOSTATE);
                 return FALSE;
